@@ -213,9 +213,11 @@ def check_all(ctx, module_suffixes=None, funcs=None, rules=('DEADPARAM', 'FORWAR
         out['defaults'] = default_agreement(ctx, funcs)
     if 'FORWARD' in rules:
         out['delegates'] = delegate_names(ctx, funcs)
+    out['stores'] = dead_stores(ctx, funcs)
     ctx.ok('FORWARD', f"option forwarding in {len(funcs)} functions",
            f"{out.get('params', 0)} parameters examined for use, {out.get('forwarded', 0)} arguments handed "
-           f"down under a parameter name, {out.get('defaults', 0)} default pairs compared")
+           f"down under a parameter name, {out.get('defaults', 0)} default pairs compared, "
+           f"{out.get('stores', 0)} computed local values checked for use")
     ctx.floor('functions examined for option forwarding', len(funcs), 5)
     return out
 
@@ -254,4 +256,51 @@ def delegate_names(ctx, funcs, rule='FORWARD'):
                   f"`{norm(call)[:70]}`: {fi.qualname} hands over to `{y}` although {owners[0]} has a `{x}` of its own "
                   f"(copy/paste from the sibling wrapper): callers get the other method's kind of result",
                   key=f"{rule}|{fi.qualname}|delegate|{y}", where=common.loc(fi, call))
+    return n
+
+
+def dead_stores(ctx, funcs, rule='DEADSTORE'):
+    """
+    A value that is computed (not a constant initialiser), bound to a local
+    name and never read on any path: the normalised / selected / converted
+    value that the following code was meant to use is dropped, and the code
+    works on something else.  Reaching-definitions over the CFG; names read in
+    nested functions, lambdas and comprehensions count as read.  One constant
+    initialiser (`sec_mo = None`) is the whole baseline on the pinned tree.
+    """
+    from .. import flow as _flow
+    n = 0
+    for fi in funcs:
+        try:
+            cfg, rd = _flow.analyse(fi.node)
+        except Exception:
+            continue
+        used = set()
+        for node in cfg.nodes:
+            for u in _flow._uses_of(node):
+                for d in rd.reaching(node, u.id):
+                    used.add(d)
+        nested_loads = set()
+        for x in ast.walk(fi.node):
+            if isinstance(x, (ast.FunctionDef, ast.AsyncFunctionDef, ast.Lambda)) and x is not fi.node:
+                for y in ast.walk(x):
+                    if isinstance(y, ast.Name) and isinstance(y.ctx, ast.Load):
+                        nested_loads.add(y.id)
+        for d, val in rd.defs.items():
+            if d[0] == 'param':
+                continue
+            nid, name = d
+            node = cfg.nodes[nid]
+            if node.kind != 'stmt' or not isinstance(node.ast, ast.Assign) or name in nested_loads or name.startswith('_'):
+                continue
+            if isinstance(node.ast.value, ast.Constant) or not isinstance(val, ast.AST):
+                continue
+            if len(node.ast.targets) != 1 or not isinstance(node.ast.targets[0], ast.Name):
+                continue            # tuple unpacking: unused fields are normal
+            n += 1
+            if d not in used:
+                ctx.violation(rule, f"{fi.qualname}: the value computed for `{name}` is used",
+                              f"`{norm(node.ast)[:80]}` is never read afterwards: the following code works on something "
+                              f"else than the value prepared for it",
+                              key=f"{rule}|{fi.qualname}|{name}", where=common.loc(fi, node.ast))
     return n
